@@ -213,7 +213,22 @@ pub fn exec(line: &str, _model: &mut Model) -> Option<Exec> {
 
 fn gen_target(rng: &mut Rng) -> CanonicalBlock {
     let mut c = loop { let c = gen_block(rng, true); if !matches!(c.data(), CanonicalData::DecodingError) { break c; } };
-    c.crc = crc::CrcValue::CrcNo;
+    // targets with and without a CRC of their own (the CRC is not a protected field)
+    if rng.chance(2, 3) { c.crc = crc::CrcValue::CrcNo; } else if rng.chance(1, 2) { c.crc = crc::CrcValue::Crc32([1, 2, 3, 4]); } else { c.crc = crc::CrcValue::Crc16([9, 9]); }
+    // typed data whose CBOR form has a length at a head-width boundary (23/24, 255/256, 65535/65536 bytes):
+    // previous-node EIDs with node names of the matching lengths; opaque data of those lengths
+    if rng.chance(1, 8) {
+        let total = *rng.pick(&[22usize, 23, 24, 25, 254, 255, 256, 257, 65_535, 65_536]);
+        let text = total - 2 - if total - 2 < 24 + 1 { 1 } else if total - 2 < 256 + 2 { 2 } else { 3 };   // [scheme, text]: 82 01 <head> <text>
+        if text >= 4 {
+            let name: String = std::iter::repeat('k').take(text - 3).collect();
+            c = new_canonical_block(6, c.block_number, c.block_control_flags, CanonicalData::PreviousNode(EndpointID::Dtn(1, dtn_address(format!("//{}/", name).as_bytes()).unwrap())));
+        }
+    } else if rng.chance(1, 10) {
+        let n = *rng.pick(&[23usize, 24, 255, 256, 65_535, 65_536]);
+        c = new_canonical_block(if rng.chance(1, 2) { 1 } else { 192 }, c.block_number, c.block_control_flags, if rng.chance(1, 2) { CanonicalData::Data(rng.bytes(n)) } else { CanonicalData::Unknown(rng.bytes(n)) });
+        if let CanonicalData::Unknown(_) = c.data() { c.block_type = 192; } else { c.block_type = 1; }
+    }
     c
 }
 
